@@ -43,6 +43,8 @@ pub fn build_options(o: &Value) -> Result<Options, String> {
         Some("tukey") => opts = opts.window(Window::Tukey(0.5)),
         Some("tukey1") => opts = opts.window(Window::Tukey(1.0)),
         Some("tukey0") => opts = opts.window(Window::Tukey(0.0)),
+        // "tukey:<f32>" incl. nan / inf / negative / tiny values: every f32 is an option value
+        Some(w) if w.starts_with("tukey:") => opts = opts.window(Window::Tukey(w[6..].parse::<f32>().map_err(|e| format!("window: {e}"))?)),
         _ => {}
     }
     // extra blocks go in before the padding decision so that "blocks before padding" is exercised
